@@ -346,6 +346,8 @@ def run(prog, tier):
     obs.append(_cdf_ordering(prog, uc, cf))
 
     obs.extend(dtype_hazard_obligations(prog, "float-arithmetic", ['inference/pdf/base.py', 'inference/pdf/unimodal.py', 'inference/pdf/kde.py']))
+    from .common import call_order_obligations
+    obs.extend(call_order_obligations(prog, "arguments-in-order", ['inference/pdf/base.py', 'inference/pdf/unimodal.py', 'inference/pdf/kde.py']))
 
     obs.extend(memo_obligations(prog, "cache-key", [prog.cls("GaussianKDE"), prog.cls("UnimodalPdf")]))
 
